@@ -32,11 +32,22 @@ def flat(x):
         yield x
 
 def random_spec(rng: random.Random, recursive=False, max_nt=4, max_rules=3, max_nodes=4, max_edges=4,
-                max_dom=3, p_feature=0.15, linear=None, allow_inf=True, start_arity0=False, dup_ext=True):
+                max_dom=3, p_feature=0.15, linear=None, allow_inf=True, start_arity0=False, dup_ext=True,
+                p_empty=0.0):
+    """p_empty > 0: with that probability per grammar one node label gets the EMPTY domain (size 0) and, with
+    probability 1/2 each, a node of that label that is attached to no edge is appended to one or two rules
+    (features empty_dom / isolated_int_empty ...).  p_empty = 0 draws nothing extra from rng."""
     feats = []
     n_nl = rng.choice([1, 1, 2])
     nlabels = [rng.randint(1, max_dom) for _ in range(n_nl)]
     if rng.random() < 0.5: nlabels[0] = max(2, nlabels[0])
+    empty_nl = None
+    if p_empty and rng.random() < p_empty:
+        if n_nl == 1 and rng.random() < 0.7:
+            nlabels.append(0); n_nl = 2; empty_nl = 1      # a label of its own, so that the other nodes keep their values
+        else:
+            empty_nl = rng.randrange(n_nl); nlabels[empty_nl] = 0
+        feats.append("empty_dom")
     n_nt = rng.randint(1, max_nt)
     n_t = rng.randint(1, 3)
     elabels = []
@@ -88,10 +99,15 @@ def random_spec(rng: random.Random, recursive=False, max_nt=4, max_rules=3, max_
                 if len(set(att)) < len(att): feats.append("repeated_attachment")
                 if not att and elabels[el]["term"]: feats.append("nullary_factor")
                 edges.append((el, att))
+            if empty_nl is not None and rng.random() < 0.5:
+                nodes.append(empty_nl)                          # attached to no edge, not external
             used = {i for _, att in edges for i in att}
             for i in range(len(nodes)):
                 if i not in used:
                     feats.append("isolated_ext" if i in ext else "isolated_int")
+                    if nlabels[nodes[i]] == 0: feats.append("isolated_ext_empty" if i in ext else "isolated_int_empty")
+                elif nlabels[nodes[i]] == 0:
+                    feats.append("attached_empty")
             rules.append(dict(lhs=x, nodes=nodes, edges=edges, ext=ext))
     if recursive and linear is False and rules:
         # force genuinely non-linear recursion: some rule gets two edges labelled by its own lhs
@@ -212,9 +228,20 @@ def patternize(t, zero, rng):
         return PatternedTensor(t[0].clone()).unsqueeze(0).expand(*t.shape)
     return PatternedTensor(t)
 
+def weight_tensor(spec, el, wconv, dtype=None):
+    """the dense torch tensor of terminal el's weights; the shape is taken from the label's type (a nested
+    list cannot express a shape with a 0 before the last axis)"""
+    import torch
+    shape = [spec["nlabels"][nl] for nl in spec["elabels"][el]["type"]]
+    vals = [wconv(v) for v in flat(spec["weights"][el])]
+    t = torch.tensor(vals, dtype=dtype) if (dtype is not None or vals) else torch.tensor(vals)
+    if dtype is None and not vals: t = torch.zeros(0)
+    return t.reshape(shape)
+
 def build_fgg(spec, wconv, ids="explicit", rng=None, rule_order=None, names=None, dtype=None, patterned=False, stage=None):
     """wconv: value (Fraction | 'inf') -> python float/bool for the semiring at hand.
-    patterned: give factors sparse PatternedTensor weights where their values allow it.
+    patterned: True = give factors sparse PatternedTensor weights where their values allow it;
+    "zero_default" = dense PatternedTensor weights whose default is the semiring zero wconv(0).
     stage: None, or a callable(fgg) invoked after only a prefix of the rules has been added
     (the remaining rules are added afterwards): exercises caches keyed on the grammar object."""
     import fggs, torch
@@ -231,10 +258,14 @@ def build_fgg(spec, wconv, ids="explicit", rng=None, rule_order=None, names=None
         g.add_domain(b.nls[i], fggs.FiniteDomain(["v%d_%d" % (i, k) for k in range(size)]))
     b.factors = {}
     for el, w in spec["weights"].items():
-        ww = nested_map(w, wconv)
-        t = torch.tensor(ww, dtype=dtype) if dtype is not None else torch.tensor(ww)
+        t = weight_tensor(spec, el, wconv, dtype)
         doms = [g.domains[b.nls[nl].name] for nl in spec["elabels"][el]["type"]]
-        if patterned:
+        if patterned == "zero_default":
+            # dense storage whose default already is the semiring's zero (what PatternedTensor.log() produces):
+            # einsum keeps such an operand as it is, PhysicalAxes included, instead of re-densifying it
+            from fggs.indices import PatternedTensor
+            t = PatternedTensor(t, default=wconv(Fraction(0)))
+        elif patterned:
             t = patternize(t, wconv(Fraction(0)), rng)
         fac = fggs.FiniteFactor(doms, t)
         g.add_factor(b.els[el], fac)
@@ -399,3 +430,84 @@ def pattern_chain_spec(rng, dom=None):
                EQ: [[one if i == j else zero for j in range(d)] for i in range(d)],
                T: [[rng.choice(vals) for _ in range(d)] for _ in range(d)]}
     return dict(nlabels=[d], elabels=elabels, start=0, rules=rules, weights=weights, features=["pattern_chain"], recursive=True)
+
+LAYER_GRID = [Fraction(1, 2), Fraction(1), Fraction(2), Fraction(3), Fraction(1, 4), Fraction(0)]
+LAYER_GRID_P = [0.22, 0.2, 0.2, 0.15, 0.15, 0.08]
+
+def layered_spec(rng, max_dom=3, p_empty=0.0):
+    """Non-recursive grammars in which the VALUE of a nonterminal is an einsum result over the very weight
+    tensors that its parents use again: few terminal labels reused on every level; mid-level nonterminals
+    of arity 1-3 with (mostly) a single rule all of whose nodes are attached (so their value is handed on
+    as one einsum output, storage axes included); parents that mix terminals and nonterminals in random
+    edge order, the same label possibly several times.  Mostly non-zero weights, domain sizes >= 2 mostly,
+    so that an index identified with another one or summed twice changes the value."""
+    feats = ["layered"]
+    n_nl = rng.choice([1, 1, 2])
+    nlabels = [min(rng.choice([2, 2, 3, 3, 1]), max_dom) for _ in range(n_nl)]
+    empty_nl = None
+    if p_empty and rng.random() < p_empty:
+        nlabels.append(0); empty_nl = n_nl; n_nl += 1; feats.append("empty_dom")
+    live = [i for i in range(n_nl) if i != empty_nl]
+    n_mid = rng.randint(1, 3)
+    elabels = [dict(term=False, type=[rng.choice(live) for _ in range(rng.choice([0, 0, 1, 1, 2]))])]
+    for _ in range(n_mid):
+        elabels.append(dict(term=False, type=[rng.choice(live) for _ in range(rng.choice([1, 2, 2, 2, 3]))]))
+    n_nt = 1 + n_mid
+    unary = {}
+    for nl in live:                                   # one unary terminal per label, so that every node can be covered
+        unary[nl] = len(elabels); elabels.append(dict(term=True, type=[nl]))
+    for _ in range(rng.randint(1, 2)):
+        elabels.append(dict(term=True, type=[rng.choice(live) for _ in range(rng.choice([1, 1, 2]))]))
+    terms = [i for i, e in enumerate(elabels) if e["term"]]
+    def attach(nodes, el, fresh_ok):
+        att = []
+        for nl in elabels[el]["type"]:
+            cands = [i for i, l in enumerate(nodes) if l == nl]
+            if not cands or (fresh_ok and len(nodes) < 6 and rng.random() < 0.35):
+                nodes.append(nl); cands = [len(nodes) - 1]
+            unused = [i for i in cands if i not in att]
+            att.append(rng.choice(unused if unused and rng.random() < 0.85 else cands))
+        return att
+    rules = []
+    for x in range(n_nt):
+        mid = x > 0
+        for _ in range(1 if (mid and rng.random() < 0.85) else rng.randint(1, 2)):
+            nodes = list(elabels[x]["type"]); ext = list(range(len(nodes)))
+            edges = []
+            lower = list(range(max(x + 1, 1), n_nt))
+            for _ in range(rng.randint(1, 3) if mid else rng.randint(2, 4)):
+                el = rng.choice(lower) if (lower and rng.random() < (0.25 if mid else 0.55)) else rng.choice(terms)
+                edges.append((el, attach(nodes, el, fresh_ok=True)))
+            used = {i for _, att in edges for i in att}
+            if rng.random() < (0.9 if mid else 0.6):  # cover the remaining nodes: no disconnected node in this rule
+                for i in range(len(nodes)):
+                    if i not in used:
+                        edges.insert(rng.randint(0, len(edges)), (unary[nodes[i]], [i]))
+            if empty_nl is not None and rng.random() < 0.4:
+                nodes.append(empty_nl)
+            used = {i for _, att in edges for i in att}
+            for i in range(len(nodes)):
+                if i not in used:
+                    feats.append("isolated_ext" if i in ext else "isolated_int")
+                    if nlabels[nodes[i]] == 0: feats.append("isolated_int_empty")
+            if any(len(set(att)) < len(att) for _, att in edges): feats.append("repeated_attachment")
+            rules.append(dict(lhs=x, nodes=nodes, edges=edges, ext=ext))
+    # feature: some rule has a terminal edge followed (in edge order) by a nonterminal of arity >= 2 whose single
+    # rule uses the same terminal
+    for r in rules:
+        seen_t = set()
+        for el, att in r["edges"]:
+            if elabels[el]["term"]: seen_t.add(el); continue
+            rs = rules_of(rules, el)
+            if len(elabels[el]["type"]) >= 2 and len(rs) == 1 and any(t in seen_t for t, _ in rs[0]["edges"]):
+                feats.append("terminal_then_nt_sharing_it")
+    weights = {}
+    for el in terms:
+        shape = [nlabels[nl] for nl in elabels[el]["type"]]
+        weights[el] = nested(shape, lambda: rng.choices(LAYER_GRID, LAYER_GRID_P)[0])
+        if any(v == 0 for v in flat(weights[el])): feats.append("zero_weight")
+    return dict(nlabels=nlabels, elabels=elabels, start=0, rules=rules, weights=weights,
+                features=sorted(set(feats)), recursive=False)
+
+def rules_of(rules, x):
+    return [r for r in rules if r["lhs"] == x]
